@@ -110,8 +110,12 @@ pub fn single_line_comment_7<S: Source>(s: &mut S) {
 pub fn single_line_comment_9<S: Source>(s: &mut S) {
     single_line_comment::<S, 9>(s)
 }
+pub fn single_line_comment_12<S: Source>(s: &mut S) {
+    single_line_comment::<S, 12>(s)
+}
 proof!(#[kani::unwind(12)] c18_single_line_comment_7 => single_line_comment_7);
 proof!(#[kani::unwind(14)] c18_single_line_comment_9 => single_line_comment_9);
+proof!(#[kani::unwind(17)] c18_single_line_comment_12 => single_line_comment_12);
 
 // ------------------------------------------------------------------------------------------ C04
 /// H-C04-shift: shifting a token's line moves it by exactly `amount` (saturating at the ends of
